@@ -10,13 +10,17 @@
      one_kind u       at most one of ip4 / ip6 / ipFuture is set (uriCopyAuthority keeps only one)
      wf u             what the parser guarantees of an object (see Props/C06.v)
      nodot s          the segment s is neither "." nor ".."
-     equals_authority uriEqualsAuthority: user info, port, and the host in the kind of the first URI
+     equals_authority uriEqualsAuthority: user info, port, and the host in the kind of the first URI; a
+                      registered name is only compared with a host without IP data ("v1.x" and the
+                      IPvFuture literal "[v1.x]" are different hosts: the former finding, repaired in
+                      src/UriShorten.c; C10_equal_authority_no_ip, C10_ex_regname_vs_literal)
      canon10 u        dot segments removed (uriRemoveDotSegmentsAbsolute), an empty path under a host
                       replaced by the single empty segment ("/"), and the single empty segment of a
                       host-less URI dropped (uriFixEmptyTrailSegment, as at the end of every parse and
                       every resolution; both forms print the same text)
      same_target a b  components (canon10 a) = components (canon10 b): the comparison of the property
      c10_good u       an object as the parser makes it, with a registered name as host if any
+     c10_base u       what is asked of the base: wf, user info and port only with a host (any host kind)
      c10_failing_shape m src base
                       the named shapes on which the round trip is known to fail (section E)
      walk_ok src base the sufficient condition of the round trip in the mode that walks the two paths:
@@ -108,11 +112,23 @@ Proof. exact rb_authority_kept. Qed.
 Print Assumptions C10_authority_kept.
 
 (* "share the entire authority" in fields: uriEqualsAuthority is equality of user info, of port and
-   of the host in the kind of the first URI, for texts without NUL (uriCompareRange is strncmp) *)
+   of the host in the kind of the first URI (for a URI without IP data: equal host texts and no IP data in
+   the second URI either), for texts without NUL (uriCompareRange is strncmp) *)
 Theorem C10_equals_authority_is_field_equality : forall a b, auth_nonul a = true ->
   (equals_authority a b = true <-> userInfo a = userInfo b /\ portText a = portText b /\ host_same a b).
 Proof. exact equals_authority_fields. Qed.
 Print Assumptions C10_equals_authority_is_field_equality.
+
+(* a host without IP data is equal only to a host without IP data *)
+Theorem C10_equal_authority_no_ip : forall a b, no_ip a = true -> equals_authority a b = true -> no_ip b = true.
+Proof. exact equal_authority_no_ip. Qed.
+Print Assumptions C10_equal_authority_no_ip.
+
+(* ... and then the authorities are equal field by field *)
+Theorem C10_equal_authority_fields_no_ip : forall a b, no_ip a = true -> auth_nonul a = true ->
+  equals_authority a b = true -> auth_fields a = auth_fields b.
+Proof. exact equal_authority_fields_no_ip. Qed.
+Print Assumptions C10_equal_authority_fields_no_ip.
 
 (* domain-root mode: the path of the reference is absolute; it is the source's, with "." in front when
    it begins with an empty segment followed by another (uriFixAmbiguity) *)
@@ -144,8 +160,9 @@ Print Assumptions C10_common_prefix.
 (* ---- D. the round trip, where it holds ------------------------------------------------------------ *)
 (* The property claims the round trip for all absolute S and B.  That is false (section E).
 
-   C10_roundtrip is the property with the failing shapes carved out: for objects as the parser makes
-   them (c10_good: wf, registered-name host or none, no NUL, user info / port only with a host), both
+   C10_roundtrip is the property with the failing shapes carved out: for a source as the parser makes
+   it (c10_good: wf, registered-name host or none, no NUL, user info / port only with a host) and a
+   base with ANY kind of host (c10_base: wf, user info / port only with a host; C10_good_is_base), both
    modes, any paths (dot segments included), outside c10_failing_shape, the reference resolves back to
    S under same_target.  Every clause of c10_failing_shape contains a real failure
    (C10_failing_shapes_inhabited, C10_roundtrip_refuted).
@@ -162,7 +179,11 @@ Print Assumptions C10_common_prefix.
    Missing, i.e. neither proved nor refuted: objects the parser never makes (segments with NUL, several
    host kinds set, a host-less URI with user info or port) and pairs inside c10_failing_shape that
    happen to round-trip (the shape is sufficient for nothing; it is where the known failures live). *)
-Theorem C10_roundtrip : forall m src base, c10_good src = true -> c10_good base = true ->
+Theorem C10_good_is_base : forall u, c10_good u = true -> c10_base u = true.
+Proof. exact c10_good_base. Qed.
+Print Assumptions C10_good_is_base.
+
+Theorem C10_roundtrip : forall m src base, c10_good src = true -> c10_base base = true ->
   scheme src <> None -> scheme base <> None -> c10_failing_shape m src base = false ->
   let r := snd (remove_base m src base) in
   fst (remove_base m src base) = URI_SUCCESS
@@ -463,4 +484,17 @@ Example C10_ex_walk_dotted :
   walk_ok_dotted (uri_of "s://h/a/./b/../c") (uri_of "s://h/a/x") = true
   /\ walk_ok (uri_of "s://h/a/./b/../c") (uri_of "s://h/a/x") = false
   /\ back_text false "s://h/a/./b/../c" "s://h/a/x" = txt "s://h/a/c".
+Proof. vm_compute. repeat split. Qed.
+
+(* a registered name against an IP literal with the same text (the repaired finding): the authorities
+   differ, the reference keeps the source's authority, the round trip holds; the base is c10_base, not
+   c10_good *)
+Example C10_ex_regname_vs_literal :
+  equals_authority (uri_of "s://v1.x/a/b") (uri_of "s://[v1.x]/a/c") = false
+  /\ equals_authority (uri_of "s://[v1.x]/a/b") (uri_of "s://v1.x/a/c") = false
+  /\ c10_good (uri_of "s://v1.x/a/b") = true /\ c10_base (uri_of "s://[v1.x]/a/c") = true
+  /\ c10_good (uri_of "s://[v1.x]/a/c") = false
+  /\ c10_failing_shape false (uri_of "s://v1.x/a/b") (uri_of "s://[v1.x]/a/c") = false
+  /\ ref_text false "s://v1.x/a/b" "s://[v1.x]/a/c" = txt "//v1.x/a/b"
+  /\ back_text false "s://v1.x/a/b" "s://[v1.x]/a/c" = txt "s://v1.x/a/b".
 Proof. vm_compute. repeat split. Qed.
